@@ -91,6 +91,12 @@ HOSTILE.append(J.of_py("%s {} \n" * 12_500)["s"])  # ~100 kB, in the compact tra
 TWINS = {"o": [[J.cps("l"), {"a": [{"i": 1}, True, {"f": (1.0).hex()}, J.S("1")]}],
                [J.cps("z"), {"a": [{"i": 0}, False, {"f": (0.0).hex()}, J.S(""), None, {"a": []}, {"o": []}]}],
                [J.cps("7"), {"i": 7}], [J.cps("7.0"), {"f": (7.0).hex()}], [J.cps("true"), True], [J.cps(""), J.S("7")]]}
+# handler results with integers just outside the 64-bit range (uint128 amounts, 2**64 as an exclusiveMaximum): what the server
+# handler family emits must carry them as the integers they are (compared type-exactly: an int is not a float)
+BIGINT_RESULTS = [{"o": [[J.cps("amount"), {"i": 2 ** 64}], [J.cps("more"), {"a": [{"i": 2 ** 64 + 1}, {"i": -(2 ** 63) - 1}, {"i": 2 ** 128 - 1}, {"i": 10 ** 30 + 7}]}],
+                         [J.cps("inside"), {"a": [{"i": 2 ** 64 - 1}, {"i": -(2 ** 63)}, {"f": (1.5).hex()}]}]]},
+                  {"i": 2 ** 64}, {"a": [{"i": -(2 ** 63) - 1}]},
+                  {"o": [[J.cps("schema"), {"o": [[J.cps("exclusiveMaximum"), {"i": 2 ** 64}], [J.cps("minimum"), {"i": -(2 ** 127)}]]}]]}]
 FALSY = [None, {"o": []}, {"a": []}, {"i": 0}, {"f": (0.0).hex()}, False, {"s": []}]
 LEAVES = [None, {"i": 0}, {"s": [97]}, {"o": []}, {"a": []}]
 KEYS = [[107], [0xE9]]
@@ -349,7 +355,7 @@ def gen_cases(ctx, budget, names):
                 for method, params in scen:
                     for i in ids:
                         out.append(_case(name, id=i, method=J.cps(method), params=params, text=pick_text(),
-                                         payload=rng.choice([J.S("txt"), SPECIAL_PAYLOADS[0], {"a": [J.S("a"), {"i": 1}]}, None, {"i": 5}])))
+                                         payload=rng.choice([J.S("txt"), SPECIAL_PAYLOADS[0], {"a": [J.S("a"), {"i": 1}]}, None, {"i": 5}] + BIGINT_RESULTS)))
                     key = "name" if "tools/call" in method else ("uri" if "resources/read" in method else None)
                     if key and params is not None and "ok" in R.s_(params["o"][0][1].get("s", [])):
                         for v in [None, True, False, {"i": 7}, {"i": 0}, {"f": (1.5).hex()}, J.S(""), {"a": []}, {"a": [J.S("ok")]}, {"o": []}, {"o": [[J.cps("ok"), None]]}]:
@@ -374,7 +380,7 @@ def gen_cases(ctx, budget, names):
                 for sc in scen:
                     method = {"ping": "ping", "initialize": "initialize", "initialized": "notifications/initialized"}.get(sc, "x/custom")
                     for i in ids:
-                        plist = [None, SPECIAL_PAYLOADS[0]] if sc not in ("custom-result", "reentrant") else FALSY + [{"a": [None]}, TWINS] + SPECIAL_PAYLOADS[:3]
+                        plist = [None, SPECIAL_PAYLOADS[0]] if sc not in ("custom-result", "reentrant") else BIGINT_RESULTS + FALSY + [{"a": [None]}, TWINS] + SPECIAL_PAYLOADS[:3]
                         for p in plist:
                             params = None
                             if sc == "initialize":
@@ -429,7 +435,8 @@ def gen_cases(ctx, budget, names):
                                          ("batch", ["ping", "bad", "ping"])):
                         for n_ in (2, 3):
                             steps = [[rng.randrange(n_), rng.choice(steps_), rng.choice(idp)] for _ in range(rng.randrange(4, 10))]
-                            out.append(_case(name, kind=kind_, n=n_, steps=steps, payload=rng.choice(FALSY + [TWINS]), text=pick_text(), exc=rng.choice(R.EXC_KINDS)))
+                            out.append(_case(name, kind=kind_, n=n_, steps=steps, payload=rng.choice(FALSY + [TWINS] + BIGINT_RESULTS), text=pick_text(),
+                                             exc=rng.choice(R.EXC_KINDS)))
                 elif name == "seq:handler-reuse":
                     orders = [["x/bad"] * k + ["x/ok", "ping"] for k in (2, 3, 4)] + [["nope"] * 3 + ["x/ok"], ["x/ok", "x/bad", "x/ok", "x/bad", "x/bad", "x/ok"]]
                     orders += [["initialize", "initialize", "ping"], ["x/ok", "x/bad", "x/ok"], ["x/bad", "x/bad", "ping"],
